@@ -52,6 +52,7 @@ import (
 	"os"
 	"runtime"
 	"slices"
+	"sync"
 	_ "unsafe"
 
 	"golang.org/x/tools/go/ssa"
@@ -104,6 +105,8 @@ type interpreter struct {
 	depth       int
 	lastUnknown string
 	harnessPkgs map[*ssa.Package]bool
+	methCache   map[methKey]*ssa.Function
+	fnInfos     map[*ssa.Function]*fnInfo
 	backing     map[*value][]value // &s[k] -> s[k:] for unsafe reinterpretation (recorded on IndexAddr when needed)
 }
 
@@ -119,7 +122,8 @@ type frame struct {
 	caller           *frame
 	fn               *ssa.Function
 	block, prevBlock *ssa.BasicBlock
-	env              map[ssa.Value]value // dynamic values of SSA variables
+	env              []value // dynamic values of SSA variables, indexed by info.index
+	info             *fnInfo
 	locals           []value
 	defers           *deferred
 	result           value
@@ -146,8 +150,10 @@ func (fr *frame) get(key ssa.Value) value {
 			return r
 		}
 	}
-	if r, ok := fr.env[key]; ok {
-		return r
+	if k, ok := fr.info.index[key]; ok {
+		if r := fr.env[k]; r != nil {
+			return r
+		}
 	}
 	panic(fmt.Sprintf("get: no value for %T: %v", key, key.Name()))
 }
@@ -205,7 +211,18 @@ func lookupMethod(i *interpreter, typ types.Type, meth *types.Func) *ssa.Functio
 	case errorType:
 		return i.errorMethods[meth.Id()]
 	}
-	return i.prog.LookupMethod(typ, meth.Pkg(), meth.Name())
+	k := methKey{typ, meth}
+	if f, ok := i.methCache[k]; ok {
+		return f
+	}
+	f := i.prog.LookupMethod(typ, meth.Pkg(), meth.Name())
+	i.methCache[k] = f
+	return f
+}
+
+type methKey struct {
+	t types.Type
+	m *types.Func
 }
 
 // visitInstr interprets a single ssa.Instruction within the activation
@@ -225,35 +242,35 @@ func visitInstr(fr *frame, instr ssa.Instruction) continuation {
 		// no-op
 
 	case *ssa.UnOp:
-		fr.env[instr] = unop(instr, fr.get(instr.X))
+		fr.set(instr, unop(instr, fr.get(instr.X)))
 
 	case *ssa.BinOp:
-		fr.env[instr] = binop(instr.Op, instr.X.Type(), fr.get(instr.X), fr.get(instr.Y))
+		fr.set(instr, binop(instr.Op, instr.X.Type(), fr.get(instr.X), fr.get(instr.Y)))
 
 	case *ssa.Call:
 		fn, args := prepareCall(fr, &instr.Call)
-		fr.env[instr] = call(fr.i, fr, instr.Pos(), fn, args)
+		fr.set(instr, call(fr.i, fr, instr.Pos(), fn, args))
 
 	case *ssa.ChangeInterface:
-		fr.env[instr] = fr.get(instr.X)
+		fr.set(instr, fr.get(instr.X))
 
 	case *ssa.ChangeType:
-		fr.env[instr] = fr.get(instr.X) // (can't fail)
+		fr.set(instr, fr.get(instr.X)) // (can't fail)
 
 	case *ssa.Convert:
-		fr.env[instr] = conv(i, instr.Type(), instr.X.Type(), fr.get(instr.X))
+		fr.set(instr, conv(i, instr.Type(), instr.X.Type(), fr.get(instr.X)))
 
 	case *ssa.SliceToArrayPointer:
-		fr.env[instr] = sliceToArrayPointer(instr.Type(), instr.X.Type(), fr.get(instr.X))
+		fr.set(instr, sliceToArrayPointer(instr.Type(), instr.X.Type(), fr.get(instr.X)))
 
 	case *ssa.MakeInterface:
-		fr.env[instr] = iface{t: instr.X.Type(), v: fr.get(instr.X)}
+		fr.set(instr, iface{t: instr.X.Type(), v: fr.get(instr.X)})
 
 	case *ssa.Extract:
-		fr.env[instr] = fr.get(instr.Tuple).(tuple)[instr.Index]
+		fr.set(instr, fr.get(instr.Tuple).(tuple)[instr.Index])
 
 	case *ssa.Slice:
-		fr.env[instr] = slice(i, fr.get(instr.X), fr.get(instr.Low), fr.get(instr.High), fr.get(instr.Max))
+		fr.set(instr, slice(i, fr.get(instr.X), fr.get(instr.Low), fr.get(instr.High), fr.get(instr.Max)))
 
 	case *ssa.Return:
 		switch len(instr.Results) {
@@ -336,10 +353,10 @@ func visitInstr(fr *frame, instr ssa.Instruction) continuation {
 		if instr.Heap {
 			// new
 			addr = new(value)
-			fr.env[instr] = addr
+			fr.set(instr, addr)
 		} else {
 			// local
-			addr = fr.env[instr].(*value)
+			addr = fr.get(instr).(*value)
 		}
 		*addr = zero(mustDeref(instr.Type()))
 
@@ -358,43 +375,51 @@ func visitInstr(fr *frame, instr ssa.Instruction) continuation {
 		for k := range slice {
 			slice[k] = zero(tElt)
 		}
-		fr.env[instr] = slice[:n]
+		fr.set(instr, slice[:n])
 
 	case *ssa.MakeMap:
-		fr.env[instr] = makeMap(instr.Type().Underlying().(*types.Map).Key(), 0)
+		fr.set(instr, makeMap(instr.Type().Underlying().(*types.Map).Key(), 0))
 
 	case *ssa.Range:
-		fr.env[instr] = rangeIter(i, fr.get(instr.X), instr.X.Type())
+		fr.set(instr, rangeIter(i, fr.get(instr.X), instr.X.Type()))
 
 	case *ssa.Next:
-		fr.env[instr] = fr.get(instr.Iter).(iter).next()
+		fr.set(instr, fr.get(instr.Iter).(iter).next())
 
 	case *ssa.FieldAddr:
 		p := fr.get(instr.X).(*value)
 		if p == nil {
 			panic(runtimeErr("invalid memory address or nil pointer dereference"))
 		}
-		fr.env[instr] = &(*p).(structure)[instr.Field]
+		fr.set(instr, &(*p).(structure)[instr.Field])
 
 	case *ssa.Field:
-		fr.env[instr] = fr.get(instr.X).(structure)[instr.Field]
+		fr.set(instr, fr.get(instr.X).(structure)[instr.Field])
 
 	case *ssa.IndexAddr:
 		x := fr.get(instr.X)
 		switch x := x.(type) {
 		case []value:
-			idx := i.index(fr.get(instr.Index), len(x))
-			fr.env[instr] = &x[idx]
+			if t, ok := fr.get(instr.Index).(*sym.Term); ok && len(x) <= 1024 && onlyLoaded(instr) {
+				fr.set(instr, symElemRef{elems: x, idx: t, it: instr.Index.Type()})
+				break
+			}
+			idx := i.index(fr.get(instr.Index), len(x), instr.Index.Type())
+			fr.set(instr, &x[idx])
 		case *value: // *array
 			if x == nil {
 				panic(runtimeErr("invalid memory address or nil pointer dereference"))
 			}
 			a := (*x).(array)
-			idx := i.index(fr.get(instr.Index), len(a))
-			fr.env[instr] = &a[idx]
+			if t, ok := fr.get(instr.Index).(*sym.Term); ok && len(a) <= 1024 && onlyLoaded(instr) {
+				fr.set(instr, symElemRef{elems: []value(a), idx: t, it: instr.Index.Type()})
+				break
+			}
+			idx := i.index(fr.get(instr.Index), len(a), instr.Index.Type())
+			fr.set(instr, &a[idx])
 		case *byteView:
-			idx := i.index(fr.get(instr.Index), x.length())
-			fr.env[instr] = x.elemRef(idx)
+			idx := i.index(fr.get(instr.Index), x.length(), instr.Index.Type())
+			fr.set(instr, x.elemRef(idx))
 		default:
 			panic(fmt.Sprintf("unexpected x type in IndexAddr: %T", x))
 		}
@@ -405,25 +430,25 @@ func visitInstr(fr *frame, instr ssa.Instruction) continuation {
 
 		switch x := x.(type) {
 		case array:
-			fr.env[instr] = i.indexRead([]value(x), idx)
+			fr.set(instr, i.indexRead([]value(x), idx, instr.Index.Type()))
 		case string:
 			if t, ok := idx.(*sym.Term); ok {
-				fr.env[instr] = i.indexRead(strToValues(x), t)
+				fr.set(instr, i.indexRead(strToValues(x), t, instr.Index.Type()))
 			} else {
 				k := asInt64(idx)
 				if k < 0 || k >= int64(len(x)) {
 					panic(runtimeErr(fmt.Sprintf("index out of range [%d] with length %d", k, len(x))))
 				}
-				fr.env[instr] = x[k]
+				fr.set(instr, x[k])
 			}
 		case sstr:
-			fr.env[instr] = i.indexRead([]value(x), idx)
+			fr.set(instr, i.indexRead([]value(x), idx, instr.Index.Type()))
 		default:
 			panic(fmt.Sprintf("unexpected x type in Index: %T", x))
 		}
 
 	case *ssa.Lookup:
-		fr.env[instr] = lookup(i, instr, fr.get(instr.X), fr.get(instr.Index))
+		fr.set(instr, lookup(i, instr, fr.get(instr.X), fr.get(instr.Index)))
 
 	case *ssa.MapUpdate:
 		m := fr.get(instr.Map).(*omap)
@@ -433,14 +458,14 @@ func visitInstr(fr *frame, instr ssa.Instruction) continuation {
 		m.insert(i, fr.get(instr.Key), fr.get(instr.Value))
 
 	case *ssa.TypeAssert:
-		fr.env[instr] = typeAssert(fr.i, instr, fr.get(instr.X).(iface))
+		fr.set(instr, typeAssert(fr.i, instr, fr.get(instr.X).(iface)))
 
 	case *ssa.MakeClosure:
 		var bindings []value
 		for _, binding := range instr.Bindings {
 			bindings = append(bindings, fr.get(binding))
 		}
-		fr.env[instr] = &closure{instr.Fn.(*ssa.Function), bindings}
+		fr.set(instr, &closure{instr.Fn.(*ssa.Function), bindings})
 
 	case *ssa.Phi:
 		log.Fatal("unreachable") // phis are processed at block entry
@@ -565,18 +590,19 @@ func callSSA(i *interpreter, caller *frame, callpos token.Pos, fn *ssa.Function,
 	}
 	defer func() { i.depth-- }()
 
-	fr.env = make(map[ssa.Value]value)
+	fr.info = i.infoOf(fn)
+	fr.env = make([]value, fr.info.n)
 	fr.block = fn.Blocks[0]
 	fr.locals = make([]value, len(fn.Locals))
 	for i, l := range fn.Locals {
 		fr.locals[i] = zero(mustDeref(l.Type()))
-		fr.env[l] = &fr.locals[i]
+		fr.set(l, &fr.locals[i])
 	}
 	for i, p := range fn.Params {
-		fr.env[p] = args[i]
+		fr.set(p, args[i])
 	}
 	for i, fv := range fn.FreeVars {
-		fr.env[fv] = env[i]
+		fr.set(fv, env[i])
 	}
 	for fr.block != nil {
 		runFrame(fr)
@@ -681,7 +707,7 @@ func executePhis(fr *frame) []ssa.Instruction {
 			fr.phitemps = append(fr.phitemps, fr.get(phi.Edges[predIndex]))
 		}
 		for i, phi := range phis {
-			fr.env[phi.(*ssa.Phi)] = fr.phitemps[i]
+			fr.set(phi.(*ssa.Phi), fr.phitemps[i])
 		}
 	}
 	return nonPhis
@@ -715,4 +741,97 @@ func doRecover(caller *frame) value {
 		}
 	}
 	return iface{}
+}
+
+// symElemRef is &elems[idx] for a symbolic idx whose only uses are loads; the
+// load becomes an ite chain (no fork per index value).
+type symElemRef struct {
+	elems []value
+	idx   *sym.Term
+	it    types.Type
+}
+
+// onlyLoaded reports whether every use of the address is a load.
+func onlyLoaded(instr *ssa.IndexAddr) bool {
+	refs := instr.Referrers()
+	if refs == nil || len(*refs) == 0 {
+		return false
+	}
+	for _, r := range *refs {
+		switch r := r.(type) {
+		case *ssa.UnOp:
+			if r.Op != token.MUL {
+				return false
+			}
+		case *ssa.DebugRef:
+		default:
+			return false
+		}
+	}
+	return true
+}
+
+// fnInfo numbers the SSA values of a function so that a frame's environment
+// is a slice instead of a map.
+type fnInfo struct {
+	index map[ssa.Value]int
+	n     int
+}
+
+var (
+	fnInfoMu    sync.RWMutex
+	fnInfoCache = map[*ssa.Function]*fnInfo{}
+)
+
+func (i *interpreter) infoOf(fn *ssa.Function) *fnInfo {
+	if fi, ok := i.fnInfos[fn]; ok {
+		return fi
+	}
+	fnInfoMu.RLock()
+	fi, ok := fnInfoCache[fn]
+	fnInfoMu.RUnlock()
+	if ok {
+		i.fnInfos[fn] = fi
+		return fi
+	}
+	fnInfoMu.Lock()
+	defer fnInfoMu.Unlock()
+	if fi, ok := fnInfoCache[fn]; ok {
+		i.fnInfos[fn] = fi
+		return fi
+	}
+	nv := len(fn.Params) + len(fn.FreeVars) + len(fn.Locals)
+	for _, b := range fn.Blocks {
+		nv += len(b.Instrs)
+	}
+	fi = &fnInfo{index: make(map[ssa.Value]int, nv)}
+	defer func() { fnInfoCache[fn] = fi }()
+	add := func(v ssa.Value) {
+		if _, ok := fi.index[v]; !ok {
+			fi.index[v] = fi.n
+			fi.n++
+		}
+	}
+	for _, p := range fn.Params {
+		add(p)
+	}
+	for _, fv := range fn.FreeVars {
+		add(fv)
+	}
+	for _, l := range fn.Locals {
+		add(l)
+	}
+	for _, b := range fn.Blocks {
+		for _, in := range b.Instrs {
+			if v, ok := in.(ssa.Value); ok {
+				add(v)
+			}
+		}
+	}
+	i.fnInfos[fn] = fi
+	return fi
+}
+
+func (fr *frame) set(key ssa.Value, v value) {
+	fr.env[fr.info.index[key]] = v
 }
